@@ -100,3 +100,52 @@ def learned_targets(P, pred):
             if learn and any(pred(o, v) for o, v in norm_learn(learn)):
                 out.append(qi)
     return sorted(set(out))
+
+
+def inlined_calls(g, key_rx, live=None):
+    """call nodes whose (inlined) callee key matches key_rx"""
+    out = [n for n, sub in g.callee_inst.items() if re.search(key_rx, sub.key)]
+    if live is not None:
+        out = [n for n in out if n in live]
+    return sorted(out)
+
+
+def call_outcome(P, cn):
+    """returns f(pi, qi, learn) -> 'ok' | 'err' | None : does crossing this product edge establish the
+    outcome of call `cn` (an event call, or an inlined call returning Result/Option)?"""
+    g = P.g
+    sub = g.callee_inst.get(cn)
+    t = g.term(cn)
+    tgt = (cn[0], t.get("target")) if t.get("target") is not None else None
+    dslot = g.slot_of(g.inst(cn), t["dest"])
+
+    def f(pi, qi, learn):
+        for o, v in norm_learn(learn):
+            if origin_call(o) == cn:
+                if v in OKV:
+                    return "ok"
+                if v in ERRV:
+                    return "err"
+        if sub is not None and tgt is not None and P.gnode(qi) == tgt and P.gnode(pi)[0] == sub.id:
+            tag = dict(P.nodes[qi][1]).get(dslot)
+            if tag:
+                if tag[0] in OKV:
+                    return "ok"
+                if tag[0] in ERRV:
+                    return "err"
+        return None
+    return f
+
+
+def exit_is_err(P, pi):
+    tag = P.tags_after_block(pi).get((0, 0, ()))
+    return bool(tag and tag[0] in ("Err", "None"))
+
+
+def mut_first_arg(g, n):
+    """is the first argument of the call at n a `&mut` reference?"""
+    t = g.term(n)
+    if not t["args"] or t["args"][0]["k"] not in ("copy", "move"):
+        return False
+    l = t["args"][0]["p"]["l"]
+    return g.inst(n).body["locals"][l]["ty"].startswith("&mut ")
